@@ -723,6 +723,28 @@ Definition deposit_script_sig (sig pk script : bytes) : bytes :=
   ser [canon_push sig; canon_push pk; canon_push script].
 Definition deposit_witness (sig pk script : bytes) : list bytes := [sig; pk; script].
 
+(* what the builder is expected to commit to for input [i] of kind [k]: the digest algorithm
+   (legacy for P2PKH / P2SH, BIP-143 for P2WPKH / P2WSH), the script code (the P2PKH script of
+   the key hash for both wallet kinds, the deposit script for both deposit kinds), the UTXO value
+   (only BIP-143 digests contain it) and SIGHASH_ALL *)
+Definition expected_digest (tx : tx_skel) (i : nat) (w : winput) : sighash :=
+  match wi_kind w with
+  | WPkh wit h => mk_sighash (if wit then Bip143 else Legacy) tx i (ser (p2pkh h))
+                             (u_value (wi_utxo w)) 1
+  | WDeposit wit d => mk_sighash (if wit then Bip143 else Legacy) tx i (ser (deposit_ops d))
+                                 (u_value (wi_utxo w)) 1
+  end.
+(* where the signature element [sig] = DER ++ [SIGHASH_ALL] and the key are expected to go *)
+Definition expected_signed_input (w : winput) (sig pk : bytes) : signed_in :=
+  match wi_kind w with
+  | WPkh false _ => {| si_script := ser [canon_push sig; canon_push pk]; si_witness := [] |}
+  | WPkh true _ => {| si_script := []; si_witness := [sig; pk] |}
+  | WDeposit false d => {| si_script := deposit_script_sig sig pk (ser (deposit_ops d));
+                           si_witness := [] |}
+  | WDeposit true d => {| si_script := [];
+                          si_witness := deposit_witness sig pk (ser (deposit_ops d)) |}
+  end.
+
 (* ------------------------------------------------------------------ correspondence: C27 cases *)
 (* digests are canonicalised to small identifiers by the driver *)
 Inductive code_kind := KUtxoScript | KRedeem | KP2pkhOfProgram.
